@@ -33,6 +33,8 @@ func (l *PLeaf) PtrTitle() string {
 type PNode struct {
 	P       string
 	Name    string
+	Zero    int // always 0: index material for paths used as indexes
+	One     int // always 1
 	Leaf    PLeaf
 	Ptr     *PLeaf
 	NilLeaf *PLeaf
@@ -76,7 +78,7 @@ func c11Leaf(p string) PLeaf {
 func c11PLeaf(p string) *PLeaf { l := c11Leaf(p); return &l }
 
 func c11Node(p string, depth int) PNode {
-	n := PNode{P: p, Name: p + ".Name", hidden: "h"}
+	n := PNode{P: p, Name: p + ".Name", One: 1, hidden: "h"}
 	n.Leaf = c11Leaf(p + ".Leaf")
 	n.Ptr = c11PLeaf(p + ".Ptr")
 	n.Leaves = []PLeaf{c11Leaf(p + ".Leaves[0]"), c11Leaf(p + ".Leaves[1]")}
@@ -124,7 +126,7 @@ type c11Step struct {
 }
 
 // spelling modes for indexes / keys
-var c11Modes = []string{"lit", "var", "expr", "adv", "lenroot"}
+var c11Modes = []string{"lit", "var", "expr", "adv", "lenroot", "pathidx", "uvar"}
 
 // c11RootLen: for the "lenroot" spelling an index i is written len(ROOT) / 2 when that equals i
 // (an index expression that mentions the root variable: it must still mean the root inside the tail).
@@ -295,6 +297,12 @@ func c11Context(rs c11RootSpec) *plush.Context {
 	c.Set("i2", 2)
 	c.Set("i3", 3)
 	c.Set("i9", 9)
+	c.Set("u0", uint(0))
+	c.Set("u1", uint(1))
+	c.Set("u8_0", uint8(0))
+	c.Set("u8_1", uint8(1))
+	c.Set("i64_0", int64(0))
+	c.Set("i64_1", int64(1))
 	c.Set("neg", -1)
 	c.Set("Nodes0", 0)
 	c.Set("Kids1", 1)
@@ -318,7 +326,7 @@ func init() {
 			return s
 		},
 		Run:  c11Run,
-		Rule: "data graph of depth 3 from a struct/map/slice/pointer type family (repeated field names at several depths, prefix names Kids/KidsX, value- and pointer-receiver methods returning leaves/structs/slices, every leaf string spelling its own Go path); from 8 roots (struct value, pointer, slices and a leaf under names that are also field names, a map, a []interface{} of different struct types holding the same field names at different positions) every walk of the type graph of <=L steps (field, index, map key, method call) ending at a string leaf, with indexes/keys spelled as literals, variables, i+0 expressions, variables named like fields and expressions that mention the root variable (len(ROOT) / 2); each used in an output tag, through let, and (for walks through a slice) as loop iterable with the tail applied to the loop variable. Expected value = Go navigation by reflection. Every walk prefix is also extended by one uncompletable step (missing key, nil pointer then member/method, index 9 / -1 via variable, unknown field/method, unexported field), alone and followed by a further .Field / .Field[0] / .Method() continuation. Oracle: completable => exactly the leaf, or an error; never another value, never empty without error. Uncompletable => error or empty output, never a leaf, never a panic. Non-trivial: walks with >=2 steps.",
+		Rule: "data graph of depth 3 from a struct/map/slice/pointer type family (repeated field names at several depths, prefix names Kids/KidsX, value- and pointer-receiver methods returning leaves/structs/slices, every leaf string spelling its own Go path); from 8 roots (struct value, pointer, slices and a leaf under names that are also field names, a map, a []interface{} of different struct types holding the same field names at different positions) every walk of the type graph of <=L steps (field, index, map key, method call) ending at a string leaf, with indexes/keys spelled as literals, variables, i+0 expressions, variables named like fields expressions that mention the root variable (len(ROOT) / 2), indexes that are themselves index-then-member paths through the same root, and unsigned / 64-bit index variables; each used in an output tag, through let, and (for walks through a slice) as loop iterable with the tail applied to the loop variable. Expected value = Go navigation by reflection. Every walk prefix is also extended by one uncompletable step (missing key, nil pointer then member/method, index 9 / -1 via variable, unknown field/method, unexported field), alone and followed by a further .Field / .Field[0] / .Method() continuation. Oracle: completable => exactly the leaf, or an error; never another value, never empty without error. Uncompletable => error or empty output, never a leaf, never a panic. Non-trivial: walks with >=2 steps.",
 		Bound: func(th bool) string {
 			if th {
 				return "walk length <=7"
@@ -391,6 +399,24 @@ func c11Path(rs c11RootSpec, steps []c11Step, mode string) string {
 	var sb strings.Builder
 	sb.WriteString(rs.name)
 	for _, s := range steps {
+		if mode == "pathidx" {
+			// the index is itself an index-then-member path through the same root
+			if (rs.name == "R" || rs.name == "RP") && s.kind == "index" && s.idx < 2 {
+				sb.WriteString("[" + rs.name + []string{".Nodes[1].Zero", ".Nodes[0].One"}[s.idx] + "]")
+				continue
+			}
+			sb.WriteString(s.spell("lit"))
+			continue
+		}
+		if mode == "uvar" {
+			// unsigned / 64-bit index variables (not ints: an error is fine, a panic is not)
+			if s.kind == "index" && s.idx < 2 {
+				sb.WriteString(fmt.Sprintf("[%s%d]", []string{"u", "u8_", "i64_"}[len(steps)%3], s.idx))
+				continue
+			}
+			sb.WriteString(s.spell("lit"))
+			continue
+		}
 		if mode == "lenroot" {
 			if n, ok := c11RootLen[rs.name]; ok && s.kind == "index" && s.idx == n/2 {
 				sb.WriteString("[len(" + rs.name + ") / 2]")
